@@ -88,6 +88,19 @@ func MsgBytes(o SOp, ver int64, badSchema bool) []byte {
 			MessageData: atp.ErrorMessage{Error: ErrText, StepFatal: o.SF, ServerFatal: o.VF}})
 	case "unk":
 		return mustEnc(atp.RuntimeMessage{MessageID: 9, RunID: o.R, MessageData: nil})
+	// frames whose payload belongs to another message type (what a flipped message ID produces)
+	case "sigasdone":
+		return mustEnc(atp.RuntimeMessage{MessageID: atp.MessageTypeWorkDone, RunID: o.R,
+			MessageData: atp.SignalMessage{SignalID: "sg", Data: "d"}})
+	case "errasdone":
+		return mustEnc(atp.RuntimeMessage{MessageID: atp.MessageTypeWorkDone, RunID: o.R,
+			MessageData: atp.ErrorMessage{Error: "e", StepFatal: o.SF, ServerFatal: o.VF}})
+	case "doneassig":
+		return mustEnc(atp.RuntimeMessage{MessageID: atp.MessageTypeSignal, RunID: o.R,
+			MessageData: atp.WorkDoneMessage{StepID: "s", OutputID: "success", OutputData: fmt.Sprintf("o%d", o.X)}})
+	case "doneaserr":
+		return mustEnc(atp.RuntimeMessage{MessageID: atp.MessageTypeError, RunID: o.R,
+			MessageData: atp.WorkDoneMessage{StepID: "s", OutputID: "success", OutputData: fmt.Sprintf("o%d", o.X)}})
 	case "done1":
 		return mustEnc(atp.WorkDoneMessage{StepID: "s", OutputID: "success", OutputData: fmt.Sprintf("o%d", o.X)})
 	}
@@ -196,7 +209,10 @@ type MMsg struct {
 }
 
 // Classify decodes one raw item the way the given reader of the client does, into a FRESH value
-// (reference semantics: nothing is inherited from earlier messages).
+// (reference semantics: nothing is inherited from earlier messages). Outer frame and inner payload
+// are both decoded with the client's strict mode (an unknown field is a decoding error), as the
+// client does since commit 1454f2e: the payload of another message type (a signal frame whose ID
+// was flipped to work-done, say) is NOT an intact work-done message.
 // ctx: "loop" (DecodedRuntimeMessage), "hello" (HelloMessage), "v1" (WorkDoneMessage).
 func Classify(it Item, ctx string) MItem {
 	if it.Kind != "raw" {
@@ -232,7 +248,7 @@ func Classify(it Item, ctx string) MItem {
 	case atp.MessageTypeWorkDone:
 		mm.T = "done"
 		var d atp.WorkDoneMessage
-		if err := cbor.Unmarshal(m.RawMessageData, &d); err == nil {
+		if err := dm.Unmarshal(m.RawMessageData, &d); err == nil {
 			mm.XKey = PayloadKey(d.OutputID, d.OutputData)
 		} else {
 			mm.XKey = ""
@@ -240,12 +256,12 @@ func Classify(it Item, ctx string) MItem {
 	case atp.MessageTypeSignal:
 		mm.T = "sig"
 		var sm atp.SignalMessage
-		mm.Good = cbor.Unmarshal(m.RawMessageData, &sm) == nil
+		mm.Good = dm.Unmarshal(m.RawMessageData, &sm) == nil
 	case atp.MessageTypeError:
 		mm.T = "err"
 		// like the client: a decoding error is logged and whatever fields did decode are used
 		var em atp.ErrorMessage
-		_ = cbor.Unmarshal(m.RawMessageData, &em)
+		_ = dm.Unmarshal(m.RawMessageData, &em)
 		mm.SF, mm.VF = em.StepFatal, em.ServerFatal
 	default:
 		mm.T = "unk"
@@ -260,5 +276,5 @@ func DoneDecodes(it Item) bool {
 		return false
 	}
 	var d atp.WorkDoneMessage
-	return cbor.Unmarshal(m.RawMessageData, &d) == nil
+	return DecMode().Unmarshal(m.RawMessageData, &d) == nil
 }
